@@ -160,21 +160,53 @@ func signedAccumulatorRule(P *Program, R *Report) {
 			dst = stripConv(callArgs(c)[2])
 			return true
 		}
-		// every store to the cache field
+		// every store to the cache field - in the function itself or in a worker it was split into (an unexported
+		// function whose only caller it is), seen with the worker's parameters bound
 		n := 0
+		type recvStore struct {
+			st  *ssa.Store
+			in  *ssa.Function
+			via ssa.CallInstruction
+		}
+		var stores []recvStore
 		for _, st := range receiverStores(fn) {
+			stores = append(stores, recvStore{st, fn, nil})
+		}
+		for _, c := range callsIn(fn) {
+			if g := staticCallee(c); g != nil && g != fn && ownerOf(P, g) == ownerOf(P, fn) && g.Blocks != nil {
+				for _, st := range receiverStores(g) {
+					stores = append(stores, recvStore{st, g, c})
+				}
+			}
+		}
+		for _, rs := range stores {
+			st := rs.st
 			if desc(st.Addr) != saccD+".Accumulator" {
 				R.bad(rule, kSaccVerify+":store("+desc(st.Addr)+")", "UnmarshalVerify writes only its cache field", "unexpected store", P.Pos(st.Pos()))
 				continue
 			}
 			n++
-			r1 := (&MustPass{P: P, Match: counter}).MustReach(fn, st)
-			r2 := (&MustPass{P: P, Match: sig}).MustReach(fn, st)
+			var r1, r2 mpResult
+			if rs.via == nil {
+				r1 = (&MustPass{P: P, Match: counter}).MustReach(fn, st)
+				r2 = (&MustPass{P: P, Match: sig}).MustReach(fn, st)
+			} else {
+				bindCall(rs.via, rs.in, func() {
+					r1 = (&MustPass{P: P, Match: counter}).MustReach(rs.in, st)
+					r2 = (&MustPass{P: P, Match: sig}).MustReach(rs.in, st)
+				})
+				if !r1.Holds {
+					r1 = (&MustPass{P: P, Match: counter}).MustReach(fn, rs.via)
+				}
+				if !r2.Holds {
+					r2 = (&MustPass{P: P, Match: sig}).MustReach(fn, rs.via)
+				}
+			}
 			R.decide(rule, fmt.Sprintf("%s:cache-store#%d:counter", kSaccVerify, n), "the accumulator is cached only after pk.Counter == s.PKCounter", r1.Holds, r1.Path, P.Pos(st.Pos()))
 			R.decide(rule, fmt.Sprintf("%s:cache-store#%d:signature", kSaccVerify, n), "the accumulator is cached only after signed.UnmarshalVerify(pk.ECDSA, s.Data, dst) returned nil", r2.Holds, r2.Path, P.Pos(st.Pos()))
 			if r2.Holds && dst != nil {
 				_, fresh := dst.(*ssa.Alloc)
-				R.decide(rule, fmt.Sprintf("%s:cache-store#%d:value", kSaccVerify, n), "the cached accumulator is the fresh object the verified payload was decoded into", fresh && siteOf(st.Val) == dst, "stored "+desc(st.Val)+" decoded into "+desc(dst), P.Pos(st.Pos()))
+				R.decide(rule, fmt.Sprintf("%s:cache-store#%d:value", kSaccVerify, n), "the cached accumulator is the fresh object the verified payload was decoded into", fresh && (siteOf(st.Val) == dst || siteOf(origin(st.Val)) == dst), "stored "+desc(st.Val)+" decoded into "+desc(dst), P.Pos(st.Pos()))
 			}
 		}
 		R.decide(rule, kSaccVerify+":cache-stores", "the cache is written (memoisation present)", n >= 1, fmt.Sprintf("%d", n), P.Pos(fn.Pos()))
